@@ -76,7 +76,7 @@ def shard(cases, weight, budget):
 # strace
 # ---------------------------------------------------------------------------------------------
 
-TRACE = "openat,write,close,renameat,renameat2,unlinkat,ftruncate"
+TRACE = "openat,write,close,renameat,renameat2,unlinkat,ftruncate,fchmod,fsync"
 LINE = re.compile(r"^(?:(\d+)\s+)?(\w+)\((.*)$")
 
 
